@@ -125,10 +125,12 @@ Qed.
    total is refused before anything is written *)
 Theorem C15_overfill_refused : forall enc_block p e b t,
   si_total (e_si e) = Some t -> e_samples_written e + block_len b < 2 ^ 64 ->
+  block_len b <= si_max_bs (e_si e) ->
   t < e_samples_written e + block_len b ->
   encoder_encode enc_block p e b = Err EExcessiveTotalSamples.
 Proof.
-  intros enc_block p e b t Ht Hfit Hover. unfold encoder_encode, u64_add.
+  intros enc_block p e b t Ht Hfit Hbs Hover. unfold encoder_encode, u64_add.
+  destruct (N.ltb_spec (si_max_bs (e_si e)) (block_len b)); [lia|].
   destruct (N.ltb_spec (e_samples_written e + block_len b) (2 ^ 64)); [|lia]. cbn [bind].
   rewrite Ht. destruct (N.ltb_spec t (e_samples_written e + block_len b)); [reflexivity|lia].
 Qed.
